@@ -3,7 +3,7 @@
    with the tensordot loop read as the tensor-product contraction [teval] (numpy is
    modelled, not verified).  Definitions only. *)
 From Coq Require Import List ZArith Bool Arith.
-From SplipyModel Require Import Model.Num Model.BasisDef Model.BasisEval Model.Tensor.
+From SplipyModel Require Import Model.Num Model.BasisDef Model.BasisEval Model.Tensor Gen.RatDerivGeneric.
 Import ListNotations.
 
 Section Model.
@@ -59,7 +59,8 @@ Section Model.
     end.
 
   (* SplineObject.derivative (generic routine): per-direction orders ds, sides above.
-     Rational: quotient rule for total order <= 1, RuntimeError above. *)
+     Rational: quotient rule (the generated kernel quot1) for total order 1, plain projection
+     for total order 0, RuntimeError above. *)
   Definition obj_deriv (tol : F) (o : obj) (ds : list nat) (above : list bool) (ts : list F) : res (list F) :=
     match validate tol (o_bases o) ts with
     | Err e => Err e
@@ -68,11 +69,12 @@ Section Model.
       if o_rat o then
         if (1 <? fold_right Nat.add 0%nat ds)%nat then Err RuntimeError
         else
+        if (fold_right Nat.add 0%nat ds =? 0)%nat then Ok (project_rat (o_dim o) r)
+        else
           let nd := eval_h tol o [] [] ts' in
           let W := nth (o_dim o) nd n0 in
           let Wd := nth (o_dim o) r n0 in
-          Ok (map (fun i => nsub (ndiv (nth i r n0) W) (ndiv (ndiv (nmul (nth i nd n0) Wd) W) W))
-                  (seq 0 (o_dim o)))
+          Ok (map (fun i => quot1 (nth i r n0) (nth i nd n0) Wd W) (seq 0 (o_dim o)))
       else Ok r
     end.
 End Model.
